@@ -344,6 +344,29 @@ func runPair(ci interface{}, s *vkit.Stats) error {
 			return fmt.Errorf("In.Eval(y) changed from %v to %v (%v) on re-evaluation; %s", ri, r, err, desc())
 		}
 	}
+	// expressions are independent objects: building, resolving and evaluating another expression (a nil pattern for a parameter
+	// of another nilable kind, the same pattern for the same type) does not change this one's answers
+	{
+		ot := reflect.TypeOf(map[string]int(nil))
+		if t.Kind() == reflect.Map {
+			ot = reflect.TypeOf((*int)(nil))
+		}
+		for _, tt := range []reflect.Type{ot, t, reflect.TypeOf([]int(nil)), reflect.TypeOf((*error)(nil)).Elem()} {
+			var pat interface{}
+			if tt == t {
+				pat = pattern(x, c.NilPat)
+			}
+			if o, err := mkEquals(pat, tt); err == nil {
+				_, _ = eval(o, tt, reflect.Zero(tt))
+			}
+		}
+		if r, err := eval(ex, t, y); err != nil || r != r1 {
+			return fmt.Errorf("Equals(x).Eval(y) changed from %v to %v (%v) after other expressions (nil patterns for other kinds) were built and resolved; %s", r1, r, err, desc())
+		}
+		if pattern(x, c.NilPat) == nil {
+			s.Class("nil-pattern-re-evaluated-after-nil-patterns-of-other-kinds")
+		}
+	}
 	// other inputs in between (for interface-typed parameters: of other dynamic types) do not change the answer for y
 	for k := uint64(1); k <= 3; k++ {
 		z := vkit.Value(t, c.Y*7+c.X+k*1000003)
